@@ -21,7 +21,7 @@ CHECKS.update({
  "C02": ("model_checking",
          "TLA+ spec of the ring buffer index arithmetic vs. a ghost FIFO (TLC, all words); every TLC-enumerated operation word replayed on the real RingQueue and judged by RingMon; mailbox ordering traces (controlled scheduler) judged by MailboxMon (SenderFIFO, SystemFirst)",
          "The ring algorithm is model-checked for all operation words up to 12/24 operations from every initial size 1..8; all words of the small configuration (tens of thousands) plus simulated and random long words around the real growth boundaries are executed on the real queue and their results validated by the monitor; per-sender FIFO and system-before-user are validated on fine-grained controlled executions of the real mailbox.",
-         "Kill and stash ordering are decided on actor-system traces (ActorSys part; Unstash batches of every size over stashes of 2-9 messages); ring operations are atomic under the queue mutex.",
+         "Kill and stash ordering are decided on actor-system traces (ActorSys part; Unstash batches of every size over stashes of 2-9 messages, also across a restart; poison kills that reach an actor through its poison-killed ancestor); ring operations are atomic under the queue mutex.",
          "§5 C02"),
  "C17": ("model_checking",
          "TLA+ transcription of MergeFromWithOptions model-checked over all reachable view triples (TLC); monitor CVMon (TLC) evaluates the merge laws on result tables produced by the real ClusterView for every ordered pair of a TLC-generated well-formed view domain",
@@ -30,7 +30,7 @@ CHECKS.update({
          "§5 C17"),
  "C07": ("model_checking",
          "TLA+ spec of Start/Stop/context-cancel at hook granularity (TLC: all interleavings of 1-3 callers, safety + liveness NeverHangs); TLC behaviours replayed on a real actor.System through hooks at the lock/kill/wait points; call/return traces and final observations validated by TLC against LifeMon",
-         "TLC explores every interleaving of the caller scripts, the guardian goroutine and the root's termination for five script families and checks start-once, stop-once, clean shutdown, lock release and (under fairness) that every call returns. Every behaviour of the small families and simulated behaviours of the larger ones are replayed step by step on a real system with a small actor tree (some with remoting); the monitor judges results against the state machine, hangs, registered actors and leftover library goroutines after Stop/cancel; a Stop that comes before Start is rejected and must leave the system fully usable (families F, G: the started system keeps its actors and delivers a scheduled job).",
+         "TLC explores every interleaving of the caller scripts, the guardian goroutine and the root's termination for five script families and checks start-once, stop-once, clean shutdown, lock release and (under fairness) that every call returns. Every behaviour of the small families and simulated behaviours of the larger ones are replayed step by step on a real system with a small actor tree (some with remoting); the monitor judges results against the state machine, hangs, registered actors and leftover library goroutines after Stop/cancel; a Start that fails in its first step leaves nothing running; an external spawn with a slow pre-launch may race Stop; a Stop that comes before Start is rejected and must leave the system fully usable (families F, G: the started system keeps its actors and delivers a scheduled job).",
          "The actor tree of the scenarios terminates when poison-killed (C06); a call that does not reach its next hook within 4 s is a hang; goroutine attribution uses stack frames of the library and go-quartz.",
          "§5 C07"),
  "C03": ("model_checking",
@@ -70,12 +70,12 @@ CHECKS.update({
          "§5 C04"),
  "C11": ("model_checking",
          "TLA+ spec of the receiving side's framing (byte stream in arbitrary segments -> one frame per turn through a buffered reader), TLC: all segmentations over chosen cut sets (safety + all delivered); TLC-simulated write/read behaviours replayed on the real connection actor over a scripted net.Conn; end-to-end loopback runs; traces validated by TLC against DeliveryMon",
-         "TLC explores every interleaving of sender writes and reads whose lengths come from a cut set covering 'inside the length prefix', 'inside the body', 'exactly at a boundary' and 'several frames at once', for frame families with real body lengths at the minimum and around the reader's 4096-byte buffer. Simulated behaviours are replayed byte-exactly on the real tcpConnectionActor (real decoder, real HandleRemotingEnvelop, real receiving actor). Two real systems over loopback TCP add concurrency, both directions, Ask/Reply the root context as a sender (Tell bursts with Asks in flight), and payloads up to frames 0/1/64 bytes below the 4 MiB limit (sizes computed from the real encoder). DeliveryMon: exactly once, in order per sender/receiver pair, intact, replies reach the asker, everything delivered on a healthy link.",
+         "TLC explores every interleaving of sender writes and reads whose lengths come from a cut set covering 'inside the length prefix', 'inside the body', 'exactly at a boundary' and 'several frames at once', for frame families with real body lengths at the minimum and around the reader's 4096-byte buffer. Simulated behaviours are replayed byte-exactly on the real tcpConnectionActor (real decoder, real HandleRemotingEnvelop, real receiving actor). Two real systems over loopback TCP add concurrency, both directions, Ask/Reply the root context as a sender (Tell bursts with Asks in flight), runs of 33-300 coalesced frames, traffic after failed encodes, and payloads up to frames 0/1/64 bytes below the 4 MiB limit (sizes computed from the real encoder). DeliveryMon: exactly once, in order per sender/receiver pair, intact, replies reach the asker, everything delivered on a healthy link.",
          "Each frame is written by one Write call; kernel TCP segmentation is represented at the Read boundary; loopback runs sample schedules (not exhaustive).",
          "§5 C11"),
  "C14": ("model_checking",
          "TLA+ specs Link (sender retry loop vs refused/cut/returning peer, TLC exhaustive) and Framing with connection resets (TLC); reset behaviours replayed on the real connection actor over a scripted net.Conn; bad-frame streams, an unreachable peer and a restarting fake peer against the real sending mailbox; traces validated by TLC against FaultMon",
-         "TLC checks on Link that what the remote actor receives is a strictly increasing subsequence, nothing is both delivered and dead-lettered, every message is accounted for and the sender always gets through; on Framing with resets that only completely received frames are delivered. Simulated reset behaviours (cut inside a prefix, inside a body, at a boundary) are replayed byte-exactly on the real reader; streams with undecodable or over-long frames, a peer that is unreachable (ReconnectLimit 0-2), a peer that answers the handshake and resets every connection (Link.tla: Flake; the variant that resets the attempt counter on connect violates Finishes), and a peer process that dies and returns exercise the real mailbox. FaultMon: subsequence / intact / no duplicate, later frames delivered after an undecodable one, dead letter exactly once for messages that could not be written, recovery after the peer returns, connections opened <= messages x (limit+1), Tell returns promptly.",
+         "TLC checks on Link that what the remote actor receives is a strictly increasing subsequence, nothing is both delivered and dead-lettered, every message is accounted for and the sender always gets through; on Framing with resets that only completely received frames are delivered. Simulated reset behaviours (cut inside a prefix, inside a body, at a boundary) are replayed byte-exactly on the real reader; streams with undecodable or over-long frames, a peer that is unreachable (ReconnectLimit 0-2), a peer that answers the handshake and resets every connection (Link.tla: Flake; the variant that resets the attempt counter on connect violates Finishes), and a peer process that dies and returns exercise the real mailbox. FaultMon: subsequence / intact / no duplicate, later frames delivered after an undecodable one, dead letter exactly once for messages that could not be written, recovery after the peer returns, connections opened <= messages x (limit+1), system messages dead-lettered like user messages, Tell returns promptly.",
          "The byte at which a kernel write fails cannot be controlled: messages accepted by the kernel and lost with the connection are tolerated; real time with wide margins for the sender-side scenarios; KNOWN FINDING KF-C14-1 (Tell blocks the caller while the peer is unreachable).",
          "§5 C14"),
  "C15": ("model_checking",
